@@ -23,6 +23,7 @@ RULE = (
 ASSUMPTIONS = [
     "decimal reading: float inputs are read as repr(x), strings by plain/scientific decimal notation",
     "ties go upward is judged for q>0 (for q<0 with no minimum either neighbour is accepted: 'upward' and 'half-up' differ there)",
+    "tier (ii) for the float format tolerates double-representation noise of declared float metadata: |r-g*| <= 1e-9*max(|min|,|c|,step,|g*|)",
     "tier (iii) tolerance: |k-q| <= 1/2 + 2e-5*max(1,|q|) and the result within 2e-5 relative of off+k*step",
     "integer formats are generated with integral min/max/step only; without a declared step only type, range and |r-c|<1 are judged",
     "strings such as '0x10', ' 12 ', '1_0', 'nan', 'inf' are ambiguous: only the exception clause is judged",
@@ -226,7 +227,14 @@ def judge_numeric(fmt, mn, mx, step, v, result, desc, tier_box):
         tier_box.append("tier_i_exact" if integral else "tier_ii_exact")
         ok = r == gstar or (alt is not None and r == alt)
         if not is_int_fmt and not ok:
-            ok = result == float(gstar) or (alt is not None and result == float(alt))
+            # float metadata (min/step) enters the computation with its binary expansion; after cancellation
+            # (e.g. min=-273.15, input 0 -> 2.3e-14) the result differs from the exact answer by double noise
+            noise = Fraction(1, 10**9) * max(abs(off), abs(c), fstep, abs(gstar))
+            ok = (
+                result == float(gstar)
+                or abs(r - gstar) <= noise
+                or (alt is not None and (result == float(alt) or abs(r - alt) <= noise))
+            )
         if not ok:
             k_got = (r - off) / fstep
             if k_got.denominator != 1:
